@@ -77,7 +77,10 @@ macro_rules! define_determiner_with_no_group {
 macro_rules! define_tokens_checker {
     ($token1: expr, $token2:expr, $token3:expr) => {{
         fn check_tokens(input: ::syn::parse::ParseStream<'_>) -> bool {
-            input.peek($token1) && input.peek2($token2) && input.peek3($token3)
+            input.peek($token1)
+                && input.peek2($token2)
+                && input.peek3($token3)
+                && $crate::parse::utils::is_nth_group_empty(input, 2)
         }
         check_tokens
     }};
